@@ -268,6 +268,9 @@ func (c *c02) judge(wd *c02world, what string, blk *spi.Blk, proof []byte, prevB
 	}()
 }
 
+// C02Extra (set by the driver) adds the runtime half: overlapping validations under the race detector.
+var C02Extra func(run *harness.Run) ([]harness.Finding, map[string]interface{}, []string)
+
 func CheckC02(run *harness.Run) int {
 	c := &c02{byRule: map[string]int{}, classes: map[string]bool{}, rng: rand.New(rand.NewSource(run.Seed*49979687 + 2))}
 	for i := 0; i < 14; i++ {
@@ -420,7 +423,16 @@ func CheckC02(run *harness.Run) int {
 		"reference_accepts_but_implementation_rejects_(not_a_C02_matter)": c.refAcceptImplReject,
 		"violations_by_rule": c.byRule,
 	}
+	var inc []string
+	if C02Extra != nil {
+		fs, ev, i := C02Extra(run)
+		c.findings = append(c.findings, fs...)
+		inc = i
+		for k, v := range ev {
+			cov[k] = v
+		}
+	}
 	run.WriteEvidence("exploration", cov, []string{"HMAC key manager as signature scheme", "reference predicate reads the proof with the generated reader (trusted) and counts weight in math/big"}, len(c.findings))
 	fmt.Printf("C02 %s: evaluations=%d accepted=%d rejected=%d classes=%d refAcceptImplReject=%d\n", run.Tier, c.evals, c.accepted, c.rejected, len(c.classes), c.refAcceptImplReject)
-	return run.Conclude(c.findings, nil)
+	return run.Conclude(c.findings, inc)
 }
